@@ -21,6 +21,10 @@ func (verifLogger) Error(string, ...interface{})       {}
 func (verifLogger) Panic(string, ...interface{})       {}
 func (l verifLogger) With(...interface{}) golog.Logger { return l }
 
+// verifWriteCacheType selects the write cache the filesystem under test hands to its files: the in-memory one
+// (mattetti/filebuffer wrapper, executed from source) or the file-backed one (an *os.File, modelled as a byte-array file).
+var verifWriteCacheType = config.WriteCacheTypeMemory
+
 type verifFS struct {
 	Env  *operations.VerifEnv
 	FS   *STFS
@@ -60,7 +64,7 @@ func verifNewFSCrypto(pipes config.PipeConfig, readCrypto, writeCrypto config.Cr
 	writeOps := env.WriteOps
 	getBuf := func() (cache.WriteCache, func() error, error) {
 		v.Bufs++
-		return cache.NewCacheWrite("", config.WriteCacheTypeMemory)
+		return cache.NewCacheWrite("/ghost/cache", verifWriteCacheType)
 	}
 	if !withWriteBackend {
 		// `stfs serve http` passes no write backend and no file buffer
